@@ -177,9 +177,12 @@ fn classify(sc: &Scenario, msg: &str) -> Verdict {
         let m = format!("loom: all live threads blocked — {}", first);
         let mut v = Vec::new();
         match sc.body {
+            // a task on the mini executor that is never woken is an async lost wakeup (C06);
+            // a thread parked in a blocking operation is C05
+            Body::Chan(ref c) if c.asyn => v.push(("C06".to_string(), "deadlock".to_string(), m)),
             Body::Chan(_) => v.push(("C05".to_string(), "deadlock".to_string(), m)),
-            Body::Bcast(_) => {
-                v.push(("C05".to_string(), "deadlock".to_string(), m.clone()));
+            Body::Bcast(ref bc) => {
+                v.push((if bc.asyn { "C06" } else { "C05" }.to_string(), "deadlock".to_string(), m.clone()));
                 v.push(("C07".to_string(), "deadlock".to_string(), m));
             }
             Body::Lock(_) => v.push(("C10".to_string(), "deadlock".to_string(), m)),
